@@ -1164,6 +1164,15 @@ func TestVerif_C33(t *testing.T) {
 		w := c33NewWorld()
 		pool := &c33Pool{w: w}
 		defer pool.close()
+		// The ancestors are valid (empty) Amsterdam blocks produced by the sequential chain
+		// maker; importing them runs the access-list-driven processor: a rejection is a
+		// violation of the property itself.
+		if err := mc.Safely(func() error { pool.put(pool.get()); return nil }); err != nil {
+			desc := map[string]any{"phase": "ancestors"}
+			r.Eval(1)
+			r.Violation(c33JSON(desc), "the chain of empty ancestor blocks built by sequential execution is rejected by block import: "+err.Error(), desc)
+			return
+		}
 
 		nAll := len(w.txs)
 		nCore := 12 // the first nCore entries carry the densest interactions
@@ -1432,6 +1441,15 @@ func TestVerif_C33_race(t *testing.T) {
 		w := c33NewWorld()
 		pool := &c33Pool{w: w}
 		defer pool.close()
+		// The ancestors are valid (empty) Amsterdam blocks produced by the sequential chain
+		// maker; importing them runs the access-list-driven processor: a rejection is a
+		// violation of the property itself.
+		if err := mc.Safely(func() error { pool.put(pool.get()); return nil }); err != nil {
+			desc := map[string]any{"phase": "ancestors"}
+			r.Eval(1)
+			r.Violation(c33JSON(desc), "the chain of empty ancestor blocks built by sequential execution is rejected by block import: "+err.Error(), desc)
+			return
+		}
 
 		reps := mc.Pick(r, 2, 20)
 		procs := []int{4, 16}
@@ -1549,4 +1567,9 @@ func TestVerif_C33_race(t *testing.T) {
 			r.OutcomeN(fmt.Sprintf("race-pass:parallel-executions:gomaxprocs=%d", g), runs.Load())
 		}
 	})
+}
+
+func c33JSON(v any) string {
+	b, _ := json.Marshal(v)
+	return string(b)
 }
